@@ -5,6 +5,7 @@ package store
 import (
 	"context"
 	"sort"
+	"sync"
 	"sync/atomic"
 	"time"
 
@@ -213,4 +214,46 @@ func VerifRootNode(layerManager *LayerManager) fusefs.InodeEmbedder {
 			layerMap:     new(idMap),
 		},
 	}
+}
+
+// VerifExpire runs the TTL-timer bodies of the layer resolver's layer and blob caches for (refspec, layer digest):
+// afterwards Resolve of that layer contacts the registry again.
+func (r *LayerManager) VerifExpire(refspec reference.Spec, target ocispec.Descriptor) {
+	key := layer.VerifCacheKeyC12(refspec, target)
+	r.resolver.VerifExpireLayerC12(key)
+	r.resolver.VerifExpireBlobC12(key)
+}
+
+// Gate: lets the harness stop one resolveLayer call right after cacheLayer (before its deferred bookkeeping runs),
+// perform other calls, and let it continue - a chosen interleaving instead of a lucky one.
+var verifGate struct {
+	mu      sync.Mutex
+	key     string
+	reached chan struct{}
+	open    chan struct{}
+}
+
+// VerifArmGate arms the gate for the resolveLayer call with the given key (ref + "/" + layer digest).
+// reached is closed when the call arrives at the gate; the call continues when open() is called.
+func VerifArmGate(key string) (reached <-chan struct{}, open func()) {
+	verifGate.mu.Lock()
+	defer verifGate.mu.Unlock()
+	verifGate.key = key
+	verifGate.reached = make(chan struct{})
+	o := make(chan struct{})
+	verifGate.open = o
+	return verifGate.reached, func() { close(o) }
+}
+
+func verifAfterCacheLayer(key string) {
+	verifGate.mu.Lock()
+	if verifGate.key != key || verifGate.open == nil {
+		verifGate.mu.Unlock()
+		return
+	}
+	reached, open := verifGate.reached, verifGate.open
+	verifGate.key, verifGate.reached, verifGate.open = "", nil, nil
+	verifGate.mu.Unlock()
+	close(reached)
+	<-open
 }
